@@ -4,6 +4,8 @@ import (
 	"fmt"
 	"go/constant"
 	"go/types"
+	"math/big"
+	"strconv"
 	"strings"
 )
 
@@ -214,11 +216,29 @@ func (e *SpecEnv) Eval(x SExpr) SV {
 			if c, ok := o.(*types.Const); ok {
 				return e.constVal(c)
 			}
+			if v, ok := o.(*types.Var); ok && !isStruct(v.Type()) {
+				// package-level variable: its current value
+				h := e.G.TE.GlobalHeap(e.Pkg.Name(), v.Name(), v.Type())
+				return SV{Term: e.Cur.Heap(h), Typ: v.Type()}
+			}
 		}
 		e.fail("unknown identifier %s", x.Name)
 	case SIntLit:
 		return SV{Term: x.V, Typ: types.Typ[types.Int]}
 	case SRealLit:
+		// a decimal literal denotes the float64 the Go compiler would use for it (exact rational of that double)
+		if f, err := strconv.ParseFloat(x.V, 64); err == nil {
+			if r := new(big.Rat).SetFloat64(f); r != nil {
+				t := fmt.Sprintf("(/ %s.0 %s.0)", new(big.Int).Abs(r.Num()).String(), r.Denom().String())
+				if r.Denom().IsInt64() && r.Denom().Int64() == 1 {
+					t = new(big.Int).Abs(r.Num()).String() + ".0"
+				}
+				if r.Sign() < 0 {
+					t = "(- " + t + ")"
+				}
+				return SV{Term: t, Typ: types.Typ[types.Float64]}
+			}
+		}
 		return SV{Term: x.V, Typ: types.Typ[types.Float64]}
 	case SStrLit:
 		return SV{Term: e.G.StrLit(x.V), Typ: types.Typ[types.String]}
@@ -725,6 +745,14 @@ func (e *SpecEnv) evalCall(x SCall) SV {
 			return v
 		}
 		return SV{Term: "(to_real " + v.Term + ")", Typ: types.Typ[types.Float64]}
+	case "rnd":
+		// nearest integer as used by "%.0f" (|rnd(x) - x| <= 1/2)
+		v := arg(0)
+		t := v.Term
+		if !isReal(v.Typ) {
+			t = "(to_real " + t + ")"
+		}
+		return SV{Term: "(rnd " + t + ")", Typ: intT}
 	case "trunc":
 		return SV{Term: "(trunc " + arg(0).Term + ")", Typ: intT}
 	case "ref":
